@@ -11,7 +11,7 @@ DEV_TECH = "TLC-enumerated input universes + TLA+ trace validation of real plann
 CHECKS = {
  "C01": ("model_checking", "TLC enumerates (device, target) pairs of the ASA universes (line edits, object-groups renamed/shared/duplicated/split, shared ACLs, routes, unmanaged overlay, long ACLs as a seeded TLC random sample) and of the ASA VPN object graph AsaV.tla (users, group-policies, tunnel-groups, certificate maps, pools, filter ACLs; crypto maps with entries matched by peer, crypto ACLs and transform-sets); the real planner's script is executed on the ASA device specification by TLC, which checks Equivalent(dev, target) at the end, that the planner's second plan on the rendered final state is empty and that an empty script only occurs for an equivalent device.", DEV_NOTE, DEV_TECH, "§7 C01"),
  "C02": ("model_checking", "Same construction on the IOS device specification (sequence numbers, resequence, numbered inserts/deletes, interface bindings, VRFs, crypto map entries matched by peer with in/out filter ACLs): final state block-canonically equivalent, second plan empty.", DEV_NOTE, DEV_TECH, "§7 C02"),
- "C07": ("model_checking", "Frame invariant of AsaTrace/IosTrace evaluated after every command of every real script on universes crossed with unmanaged overlays (unbound hand-named ACLs, ACLs of unknown interfaces, unmanaged VRFs, foreign groups shared with managed ACLs, routes of unspecified families).", DEV_NOTE, DEV_TECH, "§7 C07"),
+ "C07": ("model_checking", "Frame invariant of AsaTrace/IosTrace evaluated after every command of every real script on universes crossed with unmanaged overlays (unbound hand-named ACLs, ACLs of unknown interfaces, unmanaged VRFs, foreign groups shared with managed ACLs, routes of unspecified families, a shut-down unknown interface, a second interface in an unmanaged VRF); PAN-OS vsys and NSX objects outside the target (also ids that only contain the Netspoc prefix) through the trace specs of those dialects and real NSX sessions.", DEV_NOTE, DEV_TECH, "§7 C07"),
  "C08": ("model_checking", "Every command of every real script is executed by the device specification, whose guards encode 'the device accepts this command now' (referenced objects exist, nothing referenced is deleted, no duplicate ACL line, line/sequence numbers address the intended position, sub-commands in the mode of their parent).", DEV_NOTE, DEV_TECH, "§7 C08"),
  "C10": ("model_checking", "For sampled pairs and EVERY cut position k of the emitted script (also between the halves of a joined entry and inside sub-modes) the device state after k commands is rendered, the real planner is run again from it, the combined trace is validated: no guard failure, Equivalent at the end, third plan empty.", DEV_NOTE, DEV_TECH, "§7 C10"),
  "C13": ("model_checking", "TLC model-checks the transcription of pkg/status and missing-approve (Status.tla) against NeverForgets/Omits on all event sequences up to the bound; TLC-generated behaviours (every transition out of every abstract model state up to a depth, plus random walks) are replayed against the real status package and missing-approve binary and the recorded traces are validated by StatusTrace.tla, the verdict being taken on the observed listing.", "strictly increasing clock; status updates driven through status.SetApprove/SetCompare; bounded depth", "TLA+ model checking (TLC) + trace validation of replayed behaviours", "§7 C13"),
@@ -25,8 +25,8 @@ SESS_TECH = "TLC model check of Session.tla + TLA+ trace validation of simulator
 CHECKS.update({
  "C06": ("model_checking", "Session.tla (intended executor protocol) is model-checked for all scenarios; every fault-free approve scenario TLC enumerates (5 types x drc/do-approve x hostname x marker present/absent/unconfigured x HA x pending changes) is replayed as a real session against the stateful simulator of that type and the transcript is validated by SessionTrace.tla: no change/save command reaches a wrong, unmanaged or passive device, non-zero exit with diagnostic; a good device is approved normally.", SESS_NOTE, SESS_TECH, "§7 C06"),
  "C09": ("model_checking", "For every scenario a fault of every kind (reject, warning + reject, unexpected output, stall, close; HTTP status 400/403/404/500/503, malformed, dead connection, no-success, failed commit job, missing [OK]) is injected at EVERY line / request position of the real dialogue; SessionTrace.tla checks on the recorded transcript that nothing but clean-up follows the fault, nothing is saved, exit is non-zero, do-approve records FAILED/DIFF and END: FAILED, and OK only with everything accepted and the save confirmed.", SESS_NOTE, SESS_TECH, "§7 C09"),
- "C11": ("model_checking", "Every compare scenario (drc -C, do-approve compare; all types; with differences; missing marker; wrong name) and every fault position of a compare session is replayed; the simulator's transcript must contain no change and no save/commit (ASA terminal width classified as session setting) and the device-side change counter must stay 0.", SESS_NOTE, SESS_TECH, "§7 C11"),
- "C17": ("fault_enumeration", "The C06/C09 session space (success and every fault kind/position of login and later requests, all five types) is replayed with secrets that have distinct URL-encoded forms; every file below basedir/log directories plus stdout/stderr is byte-scanned for the plain and encoded forms of password, API key, session token and cookie.", SESS_NOTE, "model-enumerated fault scenarios (Session.tla) replayed on real sessions + byte scan for secrets", "§7 C17"),
+ "C11": ("model_checking", "Every compare scenario (drc -C, do-approve compare; all types; with differences; missing marker; wrong name) and every fault position of a compare session is replayed; the simulator's transcript must contain no change and no save/commit (ASA terminal width classified as session setting) and the device-side change counter must stay 0; also other spellings of the verb and drc -C without a log directory.", SESS_NOTE, SESS_TECH, "§7 C11"),
+ "C17": ("fault_enumeration", "The C06/C09 session space (success and every fault kind/position of login and later requests, all five types) is replayed with secrets that have distinct URL-encoded forms (regexp operators inside the password), also behind the ssh host-key question in its old and its OpenSSH-8 wording; every file below basedir/log directories plus stdout/stderr is byte-scanned for the plain and encoded forms of password, API key, session token and cookie.", SESS_NOTE, "model-enumerated fault scenarios (Session.tla) replayed on real sessions + byte scan for secrets", "§7 C17"),
 })
 
 CHECKS.update({
@@ -38,7 +38,7 @@ CHECKS.update({
 })
 
 CHECKS.update({
- "C19": ("model_checking", "NewPolicy.tla (one label per visible simple command of newpolicy.sh, 2 instances, good/bad commits with and without author e-mail, kill at every label) is model-checked for CurrentValid, OneAtATime, NumbersGrow, OnlyCompiled and Recovered; the UNMODIFIED bin/newpolicy.sh is run in scratch worlds (real git, stub netspoc/mail) under a BASH_ENV DEBUG-trap tracer that snapshots the policy database before EVERY simple command and kills the script's process group at the k-th command for every k (plus double kills and two simultaneous instances), followed by an undisturbed run; NewPolicyTrace.tla evaluates the properties on the observed snapshots.", "external commands are atomic (kill between simple commands); stub compiler; 9 history classes", "TLC model check of NewPolicy.tla + trace validation of DEBUG-trap traces of the unmodified script (kill at every command)", "§7 C19"),
+ "C19": ("model_checking", "NewPolicy.tla (one label per visible simple command of newpolicy.sh, 2 instances, good/bad commits with and without author e-mail, kill at every label) is model-checked for CurrentValid, OneAtATime, NumbersGrow, OnlyCompiled and Recovered; the UNMODIFIED bin/newpolicy.sh is run in scratch worlds (real git, stub netspoc/mail) under a BASH_ENV DEBUG-trap tracer that snapshots the policy database before EVERY simple command and kills the script's process group at the k-th command for every k (plus double kills and two simultaneous instances), followed by an undisturbed run; NewPolicyTrace.tla evaluates the properties on the observed snapshots.", "external commands are atomic (kill between simple commands); stub compiler; 11 history classes incl. a commit pushed during the compile; the final check compares current with the newest compiling revision of the history; a failure must show twice within four runs of its job", "TLC model check of NewPolicy.tla + trace validation of DEBUG-trap traces of the unmodified script (kill at every command)", "§7 C19"),
 })
 
 CHECKS.update({
@@ -47,8 +47,8 @@ CHECKS.update({
 })
 
 CHECKS.update({
- "C03": ("model_checking", "Same construction as C01 on the PAN-OS device specification (candidate configuration of the targeted vsys; set = create/merge and ADD on member lists, edit = replace with existing target, delete entry or single member, move before): universes of rule lists with insert/delete/reorder, address-groups renamed/shared/split and name clashes, objects with equal names and different values, service-groups, unknown attribute, a second untargeted vsys; final rulebase equal in order with objects expanded, second plan empty.", DEV_NOTE, DEV_TECH, "§7 C03"),
- "C04": ("model_checking", "Same construction on the NSX device specification (PUT/PATCH/POST add|remove/DELETE on services, groups, address expressions, policies, rules): universes with rules sharing sequence numbers, groups renamed/shared/split over four addresses, incremental vs full replacement, services changed in place, left-over Netspoc groups/services, policy on one side only, twin rules; per policy the multiset of expanded rules equals the target's, no left-over Netspoc service/group, second plan empty.", DEV_NOTE, DEV_TECH, "§7 C04"),
+ "C03": ("model_checking", "Same construction as C01 on the PAN-OS device specification (candidate configuration of the targeted vsys; set = create/merge and ADD on member lists, edit = replace with existing target, delete entry or single member, move before): universes of rule lists with insert/delete/reorder, address-groups renamed/shared/split and name clashes, objects with equal names and different values, service-groups, unknown attribute, rules differing in one attribute (zones, log settings, rule-type, application), a vsys holding g0 and g0-1, two vsys, a second untargeted vsys; IPv6/raw merges with an explicit effective target (one vsys with rules, two vsys) planned in merge mode; final rulebase equal in order with objects expanded, second plan empty.", DEV_NOTE, DEV_TECH, "§7 C03"),
+ "C04": ("model_checking", "Same construction on the NSX device specification (PUT/PATCH/POST add|remove/DELETE on services, groups, address expressions, policies, rules): universes with rules sharing sequence numbers, groups renamed/shared/split over four addresses, incremental vs full replacement, services changed in place, left-over Netspoc groups/services, policy on one side only, twin rules, rules differing in one attribute, in-place edits of a group between any two address sets, ICMP / IP-protocol services; per policy the multiset of expanded rules equals the target's, no left-over Netspoc service/group, second plan empty.", DEV_NOTE, DEV_TECH, "§7 C04"),
 })
 
 NA_REASONS = {
